@@ -21,7 +21,20 @@ func Verif_C05_decoders_any_slice() {
 	verifNote("each exported decoder on a byte slice of symbolic length 0..2^17+8 and symbolic contents (element loops unwound 3 times); only the implicit Go obligations are asserted")
 	b := verifBuf("slice", 0, c05Big)
 	flags := PathAttrFlags(verifU8("flags"))
-	switch verifChoose("decoder", 19) {
+	switch verifChoose("decoder", 21) {
+	case 19:
+		// the error values corebgp builds must be printable for every code/subcode (loggers call Error())
+		n := &Notification{Code: verifU8("code"), Subcode: verifU8("subcode"), Data: b}
+		_ = n.Error()
+		_ = newNotificationError(n, verifBool("out")).Error()
+		_ = n.AsSessionReset()
+	case 20:
+		t := &TreatAsWithdrawUpdateErr{Code: verifU8("code")}
+		d := &AttrDiscardUpdateErr{Code: verifU8("code")}
+		_, _ = t.Error(), d.Error()
+		_, _ = t.AsSessionReset(), d.AsSessionReset()
+		_ = fsmState(verifU8("state")).String()
+		_ = direction(verifChoose("dir", 2))
 	case 0:
 		var x OriginPathAttr
 		_ = x.Decode(flags, b)
